@@ -13,6 +13,12 @@ for n in $NAMES; do
 import json
 m=json.load(open('seeded/$n/meta.json'))
 print(' '.join(m.get('matrix_checks') or [m['property'].split()[0]]))")
+  neutral=$(python3 -c "import json;print('yes' if json.load(open('seeded/$n/meta.json')).get('neutralised') else '')")
+  if [ -n "$neutral" ]; then
+    echo "$n: neutralised by a later fix (see meta.json)"
+    echo "| $n | - | neutralised by a later fix: the change no longer breaks the property (meta.json) | |" >> $OUT.tmp
+    continue
+  fi
   for chk in $checks; do
     hit=""; line=""
     for s in 1 2 3; do
